@@ -275,6 +275,15 @@ def run(repo, tier):
                     origins_.add(a[2][1])
                 else:
                     plain = True
+            c_, iq_ = it.find_method(LINE, '__init__')
+            sym_f = args.syms.get(0, args.syms.get(pnames[0] if pnames else None))
+            sym_n0 = args.syms.get(1, args.syms.get(pnames[1] if len(pnames) > 1 else None))
+            lfields_, lparams_ = init_param_fields(it, LINE)
+            if isinstance(sym_f, tuple) and isinstance(sym_n0, tuple) and sym_f[0] == 'fld' and sym_n0[0] == 'fld' and sym_f[1] == sym_n0[1] \
+                    and len(lparams_) > 1 and lparams_[0] in lfields_.get(sym_f[2], ()) and lparams_[1] in lfields_.get(sym_n0[2], ()):
+                # a Line rebuilt from the file and number of one existing Line (its text may be rewritten): same place
+                rep.ok('R15.5.origin', '{}: Line rebuilt with the file and number of the line it replaces'.format(q), nontrivial=False)
+                continue
             if plain or not origins_:
                 one_line = all(a[0] == 'c' and a[2] == 1 for a in numbers) and all(a[0] == 'c' for a in files)
                 if one_line and not origins_:
@@ -348,7 +357,8 @@ def run(repo, tier):
     shown, opaque = returned_self_attrs(it, ERROR, it.funcs[sq]) if sq else (set(), False)
     fields, params = init_param_fields(it, ERROR) or ({}, [])
     msg_fields = {f for f, ps in fields.items() if params and params[0] in ps}
-    s_ok = sq is not None and bool(shown & err_fields) and (not msg_fields or bool(shown & msg_fields))
+    # the property is about the line: how the message is spelled out (self.message, self.args[0], super().__str__()) is not judged
+    s_ok = sq is not None and bool(shown & err_fields)
     if not s_ok and opaque:
         undecided.append('{}.__str__ hands self to code that is not followed: what it shows is not established'.format(ERROR))
         s_ok = True
